@@ -204,7 +204,10 @@ func runC10(r *run) {
 				} else {
 					t.parent = chain[lv-1].name
 					t.doc = g.childDoc(lv)
-					files[t.name] = "{% extends \"" + t.parent + "\" %}" + printItems(t.doc)
+					// whatever a child writes outside its blocks is ignored - also in front of extends
+					pre := g.rg.pick([]string{"", "", "stray text\n", "{% comment %}header{% endcomment %}", "{# note #}", "{% set tv = \"PRE\" %}", "{{ \"PRE\" }}", "{% macro tm() %}PRE{% endmacro %}",
+						"{% if true %}PRE{% endif %}", "{% block unused" + fmt.Sprint(lv) + " %}PRE{% endblock %}"})
+					files[t.name] = pre + "{% extends \"" + t.parent + "\" %}" + printItems(t.doc)
 				}
 				t.collect(t.doc)
 				chain = append(chain, t)
@@ -220,6 +223,14 @@ func runC10(r *run) {
 				a := w.args(chain[lv].name, nil)
 				a = append(a, "-", "-", hx(out.String()))
 				emit(caseT{"renderfile", a})
+				if i%4 == 0 {
+					// the same template pulled in by an include (static and by a computed name)
+					files["wrap.tpl"] = "[{% include \"" + chain[lv].name + "\" %}|{% set nm = \"" + chain[lv].name + "\" %}{% include nm %}]"
+					aw := (&world{files: []map[string]string{copyFiles(files)}}).args("wrap.tpl", nil)
+					aw = append(aw, "-", "-", hx("["+out.String()+"|"+out.String()+"]"))
+					emit(caseT{"renderfile", aw})
+					delete(files, "wrap.tpl")
+				}
 				names = append(names, hx(chain[lv].name))
 				wants = append(wants, hx(out.String()))
 			}
@@ -364,4 +375,12 @@ func execC10Shared(r *run, c caseT) {
 	if failed != "" {
 		r.reject(id, "templates of one chain compiled in the same set do not render as each renders on its own", map[string]any{"files": w.files, "mode": mode, "what": failed})
 	}
+}
+
+func copyFiles(m map[string]string) map[string]string {
+	c := map[string]string{}
+	for k, v := range m {
+		c[k] = v
+	}
+	return c
 }
